@@ -214,6 +214,16 @@ func goTypeFor(s node, v goVariant, depth int) (reflect.Type, error) {
 			}
 			return reflect.PointerTo(t), nil
 		}
+		// a multi-branch union all of whose non-null branches are integers is type-compatible with one Go integer
+		allInt := len(kids) > 0
+		for _, b := range kids {
+			if bk := nodeStr(b, "k"); bk != "int" && bk != "long" && bk != "null" {
+				allInt = false
+			}
+		}
+		if allInt {
+			return reflect.TypeOf(int64(0)), nil
+		}
 		return nil, errNoTarget
 	case "record":
 		fields := make([]reflect.StructField, len(kids))
